@@ -86,18 +86,22 @@ FramePay(p, st) == /\ pc[p] = st \o "_pay"
                    /\ emitting' = "none" /\ Goto(p, st \o "_disarm")
                    /\ U(<<closed, closing, sentClose, lk, inq, pingActive, pongSig, peerDid, ret, tl, wframe, armedW, cancelled, fired>>)
 (* on success the context is handed back: c.writeTimeout <- context.Background(); if the connection closed meanwhile the frame fails *)
+(* (the same select as in FrameArm: closed and a timeoutLoop that is still receiving make both cases ready)                        *)
 FrameDisarm(p, st) == /\ pc[p] = st \o "_disarm" /\ Goto(p, st \o "_wfunlock")
-                      /\ IF closed \/ tl # "running"
-                           THEN U(armedW) /\ ret' = (IF p \in CtxProcs THEN [ret EXCEPT ![p] = "failed"] ELSE ret)
-                           ELSE armedW' = (IF "NoRearm" \in Dev THEN armedW ELSE "none") /\ U(ret)
+                      /\ \/ (closed \/ tl # "running") /\ U(armedW) /\ ret' = (IF p \in CtxProcs THEN [ret EXCEPT ![p] = "failed"] ELSE ret)
+                         \/ tl = "running" /\ armedW' = (IF "NoRearm" \in Dev THEN armedW ELSE "none") /\ U(ret)
                       /\ U(<<closed, closing, sentClose, lk, out, emitting, inq, pingActive, pongSig, peerDid, tl, wframe, cancelled, fired>>)
 FrameUnlock(p, st, after) == /\ pc[p] = st \o "_wfunlock" /\ Unlock("wf") /\ Goto(p, after)
                       /\ U(<<closed, closing, sentClose, out, emitting, inq, pingActive, pongSig, peerDid, ret, tl, wframe, armedW, cancelled, fired>>)
 (* writeControl gives Close, Ping-reply and error frames 5 s: when that context expires the timeoutLoop closes the connection *)
+(* the timeoutLoop closing the connection because a context it watches is done: it runs close() like anybody -- closeMu, the flag,  *)
+(* the transport, the forceLocks, release -- and is gone only then (timeoutLoopDone).  Taking closeMu and raising the flag is one  *)
+(* step here (nobody can observe the difference); TLCloseDone is the rest: it needs the locks close() takes by force to be free.  *)
+TLCloses == lk["cm"] = "free" /\ closed' = TRUE /\ tl' = "closing" /\ lk' = [lk EXCEPT !["cm"] = "TL"]
 T5Write(p, st) == /\ "T5write" \in Timers /\ pc[p] = st \o "_pay" /\ Stalled /\ ~closed /\ tl = "running"
                   /\ Kind(p, st) \in {"close", "pong"}
-                  /\ closed' = TRUE /\ tl' = "exited"
-                  /\ U(<<closing, sentClose, lk, out, emitting, inq, pc, pingActive, pongSig, peerDid, ret, wframe, armedW, cancelled, fired>>)
+                  /\ TLCloses
+                  /\ U(<<closing, sentClose, out, emitting, inq, pc, pingActive, pongSig, peerDid, ret, wframe, armedW, cancelled, fired>>)
 (* the 5 s context of a control-frame write bounds the wait for the frame lock as well: when it expires mu.lock starts the    *)
 (* asynchronous closer (go c.close()) and the write fails; without the AC process its close() is collapsed into the flag flip *)
 T5WriteLock(p, st, after) ==
@@ -130,7 +134,13 @@ PWait == /\ pc[P] = "p_wait"
          /\ pongSig' = (pongSig /\ ret'[P] # "nil")          \* only the pong branch of the select takes the signal out of the channel
          /\ pingActive' = FALSE /\ Goto(P, "p_done")
          /\ U(<<closed, closing, sentClose, lk, out, emitting, inq, peerDid, tl, wframe, armedW, cancelled, fired>>)
-Pinger == PReg \/ Frame(P, "p", "p_wait") \/ PWait
+(* the Ping's context is done while it waits for the pong: as documented on Conn the connection is closed -- by Ping itself, *)
+(* synchronously (it holds no lock) -- and Ping returns the context's error; the ping is unregistered when Ping returns      *)
+PWaitCtx == /\ pc[P] = "p_wait" /\ P \in CtxProcs /\ P \in cancelled /\ ret[P] # "failed"
+            /\ ret' = [ret EXCEPT ![P] = "failed"] /\ Goto(P, "pc_cl0")
+            /\ U(<<closed, closing, sentClose, lk, out, emitting, inq, pingActive, pongSig, peerDid, tl, wframe, armedW, cancelled, fired>>)
+PFin == /\ pc[P] = "p_fin" /\ pingActive' = FALSE /\ Goto(P, "p_done")
+        /\ U(<<closed, closing, sentClose, lk, out, emitting, inq, pongSig, peerDid, ret, tl, wframe, armedW, cancelled, fired>>)
 (* close() = closeWith(false): closeMu; check-and-flip of the closed flag; the forceLocks of msgWriter.close and of readMu;   *)
 (* release.  closeWith(true) is the read loop closing the connection after a Close frame while it holds readMu: it may only   *)
 (* TRY closeMu, because whoever holds closeMu may be waiting for readMu; when the try fails it releases readMu first and then  *)
@@ -146,6 +156,7 @@ CmForceRd(p, st, holdsRd) == /\ pc[p] = st \o "_cl2" /\ Goto(p, st \o "_clZ") /\
                              /\ IF holdsRd THEN U(lk) ELSE lk["rd"] = "free" /\ lk' = [lk EXCEPT !["rd"] = "close"]
 CmRelease(p, st, after) == /\ pc[p] = st \o "_clZ" /\ lk' = [lk EXCEPT !["cm"] = "free"] /\ Goto(p, after) /\ U(Rest)
 DoClose(p, st, after) == CmAcquire(p, st) \/ CmFlip(p, st) \/ CmForceWf(p, st) \/ CmForceRd(p, st, FALSE) \/ CmRelease(p, st, after)
+Pinger == PReg \/ Frame(P, "p", "p_wait") \/ PWait \/ PWaitCtx \/ DoClose(P, "pc", "p_fin") \/ PFin
 (* casClosing takes closeMu for a moment, and so does the last step of waitGoroutines *)
 BrieflyHoldsCm(x) == \/ pc[x] \in {"k_cas", "n_cas", "c_cas"}
                      \/ pc[x] \in {"k_wg", "kl_wg", "n_wg", "nl_wg"} /\ closed /\ tl = "exited"
@@ -202,10 +213,10 @@ WaitLock(p, at, ok, fail) == /\ pc[p] = at
                 \/ "T5lock" \in Timers /\ lk["rd"] # "free" /\ ~closed /\ U(lk)
                    /\ IF AC \in Extra THEN pc' = [pc EXCEPT ![p] = fail, ![AC] = IF @ = "ac_idle" THEN "ac_cl0" ELSE @] ELSE Goto(p, fail)
              /\ U(<<closed, closing, sentClose, out, emitting, inq, pingActive, pongSig, peerDid, ret, tl, wframe, armedW, cancelled, fired>>)
-(* the 5 s wait for the peer's Close frame ends: the timeoutLoop, which watches that context, closes the connection (its close()  *)
-(* body is collapsed into the flag flip, as in TLFireW); the blocked read is then woken like any other                          *)
-T5(p, st) == /\ "T5wait" \in Timers /\ pc[p] = st \o "_hdr_in" /\ inq = <<>> /\ ~closed /\ tl = "running" /\ closed' = TRUE
-             /\ U(<<closing, sentClose, lk, out, emitting, inq, pc, pingActive, pongSig, peerDid, ret, tl, wframe, armedW, cancelled, fired>>)
+(* the 5 s wait for the peer's Close frame ends: the timeoutLoop, which watches that context, closes the connection (TLCloses);  *)
+(* the blocked read is then woken like any other                                                                                *)
+T5(p, st) == /\ "T5wait" \in Timers /\ pc[p] = st \o "_hdr_in" /\ inq = <<>> /\ ~closed /\ tl = "running" /\ TLCloses
+             /\ U(<<closing, sentClose, out, emitting, inq, pc, pingActive, pongSig, peerDid, ret, wframe, armedW, cancelled, fired>>)
 KPre == /\ pc[K] = "k_cl0pre" /\ Goto(K, "k_cl0")
         /\ U(<<closed, closing, sentClose, lk, out, emitting, inq, pingActive, pongSig, peerDid, ret, tl, wframe, armedW, cancelled, fired>>)
 WaitGor(p, at, done, val) == /\ pc[p] = at /\ WgReady /\ Goto(p, done) /\ ret' = [ret EXCEPT ![p] = val]
@@ -237,11 +248,13 @@ TLExit == /\ tl = "running" /\ closed /\ tl' = "exited"
 (* the application cancels the context of a call at any moment, also long after the call returned (defer cancel()) *)
 CtxCancel(p) == /\ p \in CtxProcs /\ p \notin cancelled /\ cancelled' = cancelled \cup {p}
                 /\ U(<<closed, closing, sentClose, lk, out, emitting, inq, pc, pingActive, pongSig, peerDid, ret, tl, wframe, armedW, fired>>)
-(* timeoutLoop: the watched context is done -> close().  (The close() body of this goroutine is collapsed into the flag flip:  *)
-(* its forceLocks only wait, they are exercised by the closer's DoClose.)                                                        *)
+(* timeoutLoop: the watched context is done -> close() (TLCloses, then TLCloseDone)                                             *)
 TLFireW == /\ tl = "running" /\ ~closed /\ armedW # "none" /\ armedW \in cancelled
-           /\ closed' = TRUE /\ fired' = armedW /\ tl' = "exited"
-           /\ U(<<closing, sentClose, lk, out, emitting, inq, pc, pingActive, pongSig, peerDid, ret, wframe, armedW, cancelled>>)
+           /\ TLCloses /\ fired' = armedW
+           /\ U(<<closing, sentClose, out, emitting, inq, pc, pingActive, pongSig, peerDid, ret, wframe, armedW, cancelled>>)
+TLCloseDone == /\ tl = "closing" /\ (Client => lk["wf"] = "free") /\ lk["rd"] = "free"
+               /\ lk' = [lk EXCEPT !["cm"] = "free", !["wf"] = IF Client THEN "close" ELSE @, !["rd"] = "close"] /\ tl' = "exited"
+               /\ U(<<closed, closing, sentClose, out, emitting, inq, pc, pingActive, pongSig, peerDid, ret, wframe, armedW, cancelled, fired>>)
 (* the peer: each of its possible moves at most once, in any order *)
 PeerAct(a, f) == /\ a \in PeerMay /\ a \notin peerDid /\ Len(inq) < 2 /\ inq' = Append(inq, f) /\ peerDid' = peerDid \cup {a}
                  /\ U(<<closed, closing, sentClose, lk, out, emitting, pc, pingActive, pongSig, ret, tl, wframe, armedW, cancelled, fired>>)
@@ -254,7 +267,7 @@ Peer == \/ PeerAct("ping", "ping") \/ PeerAct("data", "data") \/ PeerAct("close"
         \/ (MayPong /\ (PeerAct("pong", "pong") \/ PeerAct("pong2", "pong"))) \/ (SawOut("close") /\ PeerAct("echo", "close"))
         \/ PeerStall
 AsyncCloser == AC \in Extra /\ DoClose(AC, "ac", "ac_done")
-Lib == (\E w \in Writers : Writer(w)) \/ Pinger \/ Reader \/ Closer \/ CloseNower \/ CloseReader \/ AsyncCloser \/ TLExit \/ TLFireW
+Lib == (\E w \in Writers : Writer(w)) \/ Pinger \/ Reader \/ Closer \/ CloseNower \/ CloseReader \/ AsyncCloser \/ TLExit \/ TLFireW \/ TLCloseDone
 App == \E p \in CtxProcs : CtxCancel(p)
 Next == Lib \/ Peer \/ App
 Spec == Init /\ [][Next]_vars /\ WF_vars(Lib)
@@ -272,7 +285,7 @@ FrameAtomic == \A i \in 1..Len(out) : out[i].part = "hdr" =>
 NoMsgInterleave == \A i, j \in 1..Len(Hdrs) :
                       (i < j /\ Hdrs[i].k = "data" /\ Hdrs[j].k = "data" /\ Hdrs[i].by = Hdrs[j].by /\ Hdrs[i].n = 1 /\ Hdrs[j].n = 2)
                         => \A m \in (i+1)..(j-1) : Hdrs[m].k # "data"
-MutexOK == \A l \in Locks : lk[l] \in {"free", "close"} \cup Procs
+MutexOK == \A l \in Locks : lk[l] \in {"free", "close", "TL"} \cup Procs
 EmitterHoldsLock == emitting # "none" => lk["wf"] = emitting
 (* C15 *)
 PingNilOnlyAfterPong == ret[P] = "nil" => {"pong", "pong2"} \cap peerDid # {}
